@@ -89,6 +89,10 @@ func (t *SymbolTable) Index(s string) uint64 {
 }
 
 func (t *SymbolTable) Str(sym String) string {
+	// sym comes from untrusted bytes and can exceed the range of int
+	if uint64(sym) >= uint64(OFFSET+len(*t)) {
+		return fmt.Sprintf("<invalid symbol %d>", sym)
+	}
 	if int(sym) < 1024 {
 		if int(sym) > len(DEFAULT_SYMBOLS)-1 {
 			return fmt.Sprintf("<invalid symbol %d>", sym)
